@@ -1,6 +1,7 @@
 package worlds
 
 import (
+	"crypto/sha256"
 	"encoding/hex"
 	"encoding/json"
 	"errors"
@@ -212,8 +213,10 @@ func pushOf(data []byte) []byte {
 		return append([]byte{byte(n)}, data...)
 	case n <= 255:
 		return append([]byte{0x4c, byte(n)}, data...)
-	default:
+	case n <= 65535:
 		return append([]byte{0x4d, byte(n), byte(n >> 8)}, data...)
+	default:
+		return append([]byte{0x4e, byte(n), byte(n >> 8), byte(n >> 16), byte(n >> 24)}, data...)
 	}
 }
 
@@ -260,6 +263,18 @@ func genScript(c *kernel.RunCtx, n int, pushOnly bool) []byte {
 				depth++
 			}
 		case 4:
+			if c.Bool(1, 10) {
+				// a duplicated item, one copy of which is then split / concatenated
+				d := c.Bytes(2 + c.Choose(10))
+				s = append(s, pushOf(d)...)
+				s = append(s, []byte{0x76, 0x78, 0x6e}[c.Choose(3)]) // DUP / OVER / 2DUP
+				s = append(s, 0x51+byte(c.Choose(len(d)-1)), 0x7f)   // <n> SPLIT, 0 < n < len
+				if c.Bool(1, 2) {
+					s = append(s, 0x7e) // CAT
+				}
+				c.End()
+				continue
+			}
 			if c.Bool(1, 12) {
 				// a comparison / signature-check result fed straight into a shift (results are fresh stack items)
 				s = append(s, 0x51+byte(c.Choose(3)), 0x51+byte(c.Choose(3)), []byte{0x87, 0x9c, 0xa0}[c.Choose(3)], 0x51+byte(c.Choose(8)), 0x98+byte(c.Choose(2)))
@@ -300,7 +315,34 @@ func genProgram(c *kernel.RunCtx) *program {
 	p := &program{src: "generated"}
 	fs := genFlagSets[c.Choose(len(genFlagSets))]
 	p.flags = parseFlags(fs)
-	switch c.Pick(6, 3, 1) {
+	switch c.Pick(24, 12, 4, 1) {
+	case 3: // one stack item larger than 64 KiB (post-Genesis only), whose bytes decide the verdict
+		n := 65537 + c.Choose(5000)
+		big := fillBytes(c, n)
+		h := sha256.Sum256(big)
+		if c.Bool(1, 2) {
+			p.unlock = pushOf(big)
+		} else {
+			half := big[:n/2]
+			rest := big[n/2:]
+			p.unlock = append(append(pushOf(half), pushOf(rest)...), 0x7e) // built with OP_CAT
+			if c.Bool(1, 2) {
+				p.unlock = append(pushOf(half), pushOf(rest)...)
+				p.lock = []byte{0x7e}
+			}
+		}
+		p.lock = append(p.lock, 0x76, 0xa8) // DUP SHA256
+		p.lock = append(p.lock, pushOf(h[:])...)
+		p.lock = append(p.lock, 0x88, 0x82) // EQUALVERIFY SIZE
+		p.lock = append(p.lock, pushOf(scriptNumBytes(n))...)
+		p.lock = append(p.lock, 0x9c) // NUMEQUAL
+		if c.Bool(1, 3) {
+			p.lock = append(p.lock, 0x69, 0x51) // VERIFY 1
+		}
+		p.flags = parseFlags("UTXO_AFTER_GENESIS")
+		p.src = "generated-big-item"
+		p.amount = 1
+		return p
 	case 0:
 		p.unlock = genScript(c, c.Range(0, 8), c.Bool(3, 4))
 		p.lock = genScript(c, c.Range(1, 32), false)
